@@ -122,7 +122,8 @@ class Check(Property):
             for var in (variants if self.tier != "quick" else rng.sample(variants, 5)):
                 self.bump("generated." + var)
                 out.append({"kind": "gen", "file": i, "variant": var, "text": txt, "names": names, "spellings": spellings,
-                            "seed": rng.getrandbits(32), "ops": ops, "lines": [l for _, l in g.lines], "dims": dimnames})
+                            "seed": rng.getrandbits(32), "ops": ops, "lines": [l for _, l in g.lines], "dims": dimnames,
+                            "ctx": g.context})
         # the hypotheses of the order-independence theorems (Props/C10Load.lean): lists of lines with clashing
         # spellings, written delta_ units next to automatic companions, alias lines before / after their unit —
         # loaded in the order given, every key probed: the model's "later line wins" must be pint's
@@ -511,6 +512,33 @@ class Check(Property):
                     if got_d != want_d:
                         v.append(f"C10 file {c['file']} [{c['variant']}] derived dimension {d}: get_dimensionality gives {got_d} "
                                  f"but the definitions say {want_d}")
+                if c.get("ctx"):
+                    # the context of the file: its parameter default and the constant of its rule are read in the
+                    # registry's numeric type, and the rule converts as written
+                    cx = c["ctx"]
+                    T = {"decimal": Decimal, "float": float}.get(c["variant"], Fraction)
+                    rec = next((r for r in proj.contexts if r["name"] == cx["name"]), None)
+                    want = Fraction(3) * Fraction(cx["n"]) * Fraction(cx["k"])
+                    if rec is None or {k_: Fraction(x) for k_, x in rec["defaults"].items()} != {"n": Fraction(cx["n"])}:
+                        v.append(f"C10 file {c['file']}: the independent reader does not see the context as written: {rec}")
+                    for nm in (cx["name"], cx["alias"]):
+                        try:
+                            got = u.Quantity(T(3), "metre").to("second", nm).magnitude
+                        except Exception as exc:  # noqa: BLE001
+                            v.append(f"C10 file {c['file']} [{c['variant']}] context {nm}: 3 metre -> second raised {type(exc).__name__}: {exc}")
+                            continue
+                        if not isinstance(got, (T, int)) or isinstance(got, bool):
+                            v.append(f"C10 file {c['file']} [{c['variant']}] context {nm}: the result {got!r} has type {type(got).__name__}, "
+                                     f"the registry's numeric type is {T.__name__}")
+                        elif (Fraction(got) != want) if T is Fraction else (abs(Fraction(got) / want - 1) > Fraction(1, 10 ** 12)):
+                            v.append(f"C10 file {c['file']} [{c['variant']}] context {nm}: 3 metre -> second gives {got!r}, the rule "
+                                     f"value * n * {cx['k']} with the default n={cx['n']} gives {want}")
+                        try:
+                            dflt = u._contexts[nm].defaults["n"]
+                            if not isinstance(dflt, (T, int)) or Fraction(dflt) != Fraction(cx["n"]):
+                                v.append(f"C10 file {c['file']} [{c['variant']}] context {nm}: default n is {dflt!r} ({type(dflt).__name__}), written {cx['n']}")
+                        except Exception as exc:  # noqa: BLE001
+                            v.append(f"C10 file {c['file']} [{c['variant']}] context {nm}: defaults not readable: {type(exc).__name__}")
                 for g in proj.groups:
                     want = {b["name"] for b in g["body"] if b["kind"] == "unit"}
                     for used in g["using"]:
